@@ -37,7 +37,7 @@ def with_crashes(rng, case):
             cur[tgt_of_do[o[1]]] = scripts[o[2]]
         if o[0] == "ifc" and cur and rng.random() < 0.45:
             t = rng.choice(sorted(cur))
-            k = rng.randint(0, len(cur[t].get("ifchange", [])))
+            k = rng.randint(0, len(cur[t].get("ifchange", [])) + (1 if cur[t].get("stamp") and rng.random() < 0.5 else 0))
             ops.append(("crash", list(o[1]), t, k))
             if rng.random() < 0.5:
                 ops.append(("ood",))
@@ -128,6 +128,38 @@ def stamp_window_scenario():
         pr.destroy()
 
 
+def dofile_row_scenario():
+    """A build killed right after the .do search of a target whose specific .do was removed: the search has already
+    replaced the `m` row on the old .do by a `c` row (insert-or-replace on (target, source)) and added an `m` row on
+    the fallback default.do, which other targets keep current; the target's own record is untouched.  Returns
+    (stale, info)."""
+    import signal, subprocess, time as _t
+    pr = Project()
+    try:
+        pr.write("default.do", 'if [ -e slow ]; then sleep 5; fi\necho "default-built $1"\n')
+        pr.write("t.do", "echo specific\n")
+        rc, out, err = pr.run(["redo-ifchange", "u"])
+        rc2, out, err = pr.run(["redo-ifchange", "t"])
+        if rc or rc2 or pr.read("t") != b"specific\n":
+            return None, dict(problem="setup failed")
+        pr.rm("t.do")
+        pr.write("slow", "")
+        p = subprocess.Popen(["redo-ifchange", "t"], cwd=pr.root, env=clean_env(), stdout=subprocess.DEVNULL, stderr=subprocess.DEVNULL, stdin=subprocess.DEVNULL, start_new_session=True)
+        _t.sleep(1.0)
+        try:
+            os.killpg(p.pid, signal.SIGKILL)
+        except ProcessLookupError:
+            pass
+        p.wait()
+        pr.rm("slow")
+        rc3, out3, err3 = pr.run(["redo-ifchange", "t"], timeout=60)
+        got = pr.read("t")
+        info = dict(recovery_rc=rc3, t_after_recovery=repr(got), expected="b'default-built t\\n'")
+        return (rc3 == 0 and got != b"default-built t\n"), dict(info, other_problem=(rc3 != 0))
+    finally:
+        pr.destroy()
+
+
 def stale_tmp_scenario():
     """A killed build leaves its `$3` file behind; the next build of the target must start from an empty `$3` also when
     the target is built from another directory than its .do file's and the script appends to `$3`."""
@@ -169,7 +201,38 @@ def run(ctx):
     feats = dict(stamp=0.3, always=0.1, fail=0.1, ifcreate=0.2, default=0.3)
     base_rng = random.Random(ctx["seed"] * 41 + 10)
     extra = [with_crashes(rng, depsgen.gen_case(base_rng, features=feats)) for _ in range(240 if thorough else 36)]
-    cov = deps_check.run_property(ctx, "C10", feats, 0, {"C01", "C10"}, extra_cases=extra)
+    kf_stamp = [k for k in known_findings("C10") if k.get("id") == "stamp-before-record" and k.get("status") == "known"]
+
+    def stamp_window_matcher(case, mon):
+        """A stale target after an exit-0 build is the recorded finding only if an earlier build of the history was
+        killed after `redo-stamp` of a script that stamps (kill step = number of its redo-ifchange commands + 1)."""
+        if not kf_stamp or mon[0] not in ("C01", "C10"):
+            return None
+        progs, cur = {}, {}
+        tgt_of_do = {cs[0]: t for t, cs in case.rules.items()}
+        for i, o in enumerate(case.ops[:mon[2] + 1]):
+            if o[0] == "p":
+                progs[o[1]] = o[2]
+            elif o[0] == "w" and o[1] in tgt_of_do and o[2] in progs:
+                cur[tgt_of_do[o[1]]] = progs[o[2]]
+            elif o[0] == "crash":
+                sc = cur.get(o[2], {})
+                if sc.get("stamp") and o[3] == len(sc.get("ifchange", [])) + 1:
+                    return "a build killed after `redo-stamp` and before the result was recorded leaves the target marked changed/checked in that run with the old file: a later redo-ifchange exits 0 with stale content (history with a kill at the after-stamp step of %s)" % case.names[o[2]]
+        # the .do-search window: the stale target has several .do candidates, and a build was killed after one of its
+        # candidates had been created or removed
+        m = re.search(r"target (\d+) \(", mon[1])
+        if m and [k for k in known_findings("C10") if k.get("id") == "killed-build-forgets-old-dofile" and k.get("status") == "known"]:
+            t = int(m.group(1))
+            cands = case.rules.get(t, [])
+            touched = False
+            for o in case.ops[:mon[2] + 1]:
+                if o[0] in ("w", "r") and o[1] in cands:
+                    touched = True
+                elif o[0] == "crash" and touched and len(cands) >= 2:
+                    return "a build killed after the .do search, following a change of which .do candidate of %s exists, loses the row on the previously used .do: a later redo-ifchange exits 0 with the old script's output" % case.names[t]
+        return None
+    cov = deps_check.run_property(ctx, "C10", feats, 0, {"C01", "C10"}, extra_cases=extra, known_matcher=stamp_window_matcher)
     cov["crash_ops"] = sum(1 for c in extra for o in c.ops if o[0] == "crash")
     known_hit = cov.get("known_hit", [])
     # (2) kill injection before every state-changing syscall
@@ -217,6 +280,20 @@ def run(ctx):
             else:
                 p = write_replay("C10", "stamp-window", dict(kind="impl-monitor", info=info, scenario="t.do: redo-ifchange x; cat x >$3; redo-stamp <$3; (slow tail).  build top; edit x; redo-ifchange top killed during the tail; redo-ifchange top"))
                 viol.append(Violation("C10", p, "kill after redo-stamp and before the result is recorded: recovery exits 0 but t=%s top=%s (expected v2)" % (info["t_after_recovery"], info["top_after_recovery"])))
+    # (4) the .do-search window
+    if not viol:
+        stale, info = dofile_row_scenario()
+        cov["distribution"]["dofile_row_window"] = info
+        kf3 = [k for k in known_findings("C10") if k.get("id") == "killed-build-forgets-old-dofile" and k.get("status") == "known"]
+        if stale is None or info.get("other_problem"):
+            p = write_replay("C10", "dofile-row", dict(kind="impl-monitor", info=info))
+            viol.append(Violation("C10", p, "kill after the .do search: recovery misbehaves: %r" % info))
+        elif stale:
+            if kf3:
+                known_hit.append("kill after the .do search of a target whose specific .do was removed: the `m` row on the old .do has already been replaced by a `c` row, the fallback default.do is current for other reasons, the target's record is untouched; the recovery `redo-ifchange` exits 0 and the target keeps the output of the removed script (paths::find_do_file / add_dep insert-or-replace)")
+            else:
+                p = write_replay("C10", "dofile-row", dict(kind="impl-monitor", info=info, scenario="default.do (used by u), t.do; build u, t; rm t.do; redo-ifchange t killed while default.do runs; redo-ifchange t"))
+                viol.append(Violation("C10", p, "kill after the .do search of a target whose specific .do was removed: recovery exits 0 but t=%s (expected the default rule's output)" % info["t_after_recovery"]))
     cov["known_hit"] = known_hit
     cov["rule"] += "; here with kill operations inserted before 45%% of the build commands (whole tree SIGKILLed when a chosen script reaches a chosen step), and a syscall-level kill enumeration (strace inject before the K-th rename/unlink/write/pwrite64/ftruncate/fsync of every process, %d points x {whole command, nested redo-ifchange}) on a 3-target project" % len(POINTS_THOROUGH if thorough else POINTS_QUICK)
     return cov
